@@ -20,7 +20,8 @@ ASSUME LawComputedOk == \A cls \in {"zero", "one", "mid"}, p \in SUBSET OkValues
                           /\ \A ok \in OkValues : WellFormedFacts(ok, cls, TRUE, ItemKeys, {}) => ok = OkOfClass(cls)
 \* the palettes of the cfg are inside the tables
 ASSUME Palettes == /\ AnsOpts \cup LeafAns \cup ListAns \subseteq DOMAIN AnsTable
-                   /\ CmpReturns \cup LeafCmp \subseteq {"T", "F", "P"} \cup DOMAIN DictGrade
+                   /\ CmpReturns \cup LeafCmp \subseteq {"T", "F", "P"} \cup DOMAIN DictGrade \cup ErrEvents
+                   /\ LeafCmp \cap ErrEvents = {}
                    /\ TableGrades \subseteq DOMAIN CreditVal
                    /\ MaxAlts <= Len(AltMark)
 =============================================================================
